@@ -378,7 +378,54 @@ def C13_x64_flag_restored():
     return True, "flag restored in 16 cases"
 
 
+# ---------------------------------------------------------------- C17 (graph level)
+def C17_range_bounds_family():
+    """All Range(start, limit, delta) with operands in [-7, 7] (delta != 0) behind
+    0..2 shape-only ops: the bounds returned by the real
+    _known_integer_value_bounds must contain every element numpy's arange
+    produces, and _cast_roundtrip_known_values_fit may say True only if every
+    element fits the intermediate type (checked for INT64 -> {INT8 scaled, UINT8, INT4})."""
+    import numpy as np
+    import onnx_ir as ir
+    from jax2onnx.converter import ir_optimizations as opt
+
+    def const(name, v):
+        val = ir.Value(name=name, shape=ir.Shape(()), type=ir.TensorType(ir.DataType.INT64))
+        val.const_value = ir.tensor(np.asarray(v, dtype=np.int64))
+        return val
+
+    n = 0
+    for s in range(-7, 8):
+        for l in range(-7, 8):
+            for d in list(range(-7, 0)) + list(range(1, 8)):
+                for scale in (1, 40):
+                    S, L, Dd = s * scale, l * scale, d
+                    vs, vl, vd = const("s", S), const("l", L), const("d", Dd)
+                    rng = ir.Node("", "Range", [vs, vl, vd], num_outputs=1)
+                    out = rng.outputs[0]
+                    out.name = "r"
+                    nodes = [rng]
+                    for k, op in enumerate(("Identity", "Reshape")[: (n % 3)]):
+                        extra = [const(f"shape{k}", [-1])] if op == "Reshape" else []
+                        nd = ir.Node("", op, [out] + extra, num_outputs=1)
+                        nd.outputs[0].name = f"o{k}"
+                        nodes.append(nd)
+                        out = nd.outputs[0]
+                    n += 1
+                    elems = np.arange(S, L, Dd, dtype=np.int64)
+                    b = opt._known_integer_value_bounds(nodes, out)
+                    if b is not None and elems.size and not (b[0] <= elems.min() and elems.max() <= b[1]):
+                        return False, f"Range({S},{L},{Dd}) produces {elems.tolist()[:6]}…{elems.tolist()[-2:]} but _known_integer_value_bounds returned {b}"
+                    for mid in (ir.DataType.INT8, ir.DataType.UINT8, ir.DataType.INT4):
+                        fit = opt._cast_roundtrip_known_values_fit(nodes, out, int(ir.DataType.INT64.value), int(mid.value))
+                        lo, hi = {ir.DataType.INT8: (-128, 127), ir.DataType.UINT8: (0, 255), ir.DataType.INT4: (-8, 7)}[mid]
+                        if fit and elems.size and not (lo <= elems.min() and elems.max() <= hi):
+                            return False, f"Range({S},{L},{Dd}) has elements outside {mid.name} [{lo},{hi}] (min {elems.min()}, max {elems.max()}) but _cast_roundtrip_known_values_fit returned True"
+    return True, f"{n} Range graphs consistent with numpy.arange"
+
+
 ALL = {
+    "C17_range_bounds_family": C17_range_bounds_family,
     "C13_apply_patches_restores": C13_apply_patches_restores,
     "C13_x64_flag_restored": C13_x64_flag_restored,
     "D1": D1_max_nonscalar_side_operand,
